@@ -155,6 +155,15 @@ def _sequential(env, tag, name, items, timeout):
         errs.update(e1)
         if d1:
             errs[i] = "process died " + t1
+        # the lines before the killer ran, but the process ended before it printed its error summary: run them again
+        if pos > 0:
+            for i0, _ in remaining[:pos]:
+                shutil.rmtree(os.path.join(env.ex, tag, "l%d" % i0), ignore_errors=True)
+            d2, e2, t2 = _batch(env, tag, "%s_r%d_pre" % (name, rnd), remaining[:pos], 1, timeout)
+            errs.update(e2)
+            if d2:
+                for i0, _ in remaining[:pos]:
+                    errs.setdefault(i0, "process died " + t2)
         remaining = remaining[pos + 1:]
     return errs
 
@@ -398,7 +407,7 @@ def year_ext(y):
     return "0" + s[1:3] if j >= 100 else "9" + s
 
 
-def render_weather(root, folder, layout, fcode, series, none="-99.9", heights=None):
+def render_weather(root, folder, layout, fcode, series, none="-99.9", heights=None, et0=False):
     """series: [(date, dict tavg tmin tmax prec rad wind rh)] of decimal strings; returns the config keys.
     heights = (station height, wind height): a third header line (layouts 0 and 1 only)"""
     wdir = os.path.join(root, "weather", folder)
@@ -414,7 +423,8 @@ def render_weather(root, folder, layout, fcode, series, none="-99.9", heights=No
                 if heights:
                     f.write("%s;%s;-----;-----;-----;-----;-----;-----;------;-- -;-\n" % heights)
                 for d, r in recs:
-                    f.write(";".join([r["tavg"], r["tmin"], r["tmax"], none, r["rh"], none, r["wind"], none, r["rad"], r["prec"],
+                    f.write(";".join([r["tavg"], r["tmin"], r["tmax"], ("%.1f" % (0.3 + 2.2 * (1 - abs(d.timetuple().tm_yday - 183) / 183.0))) if et0 else none,
+                                      r["rh"], none, r["wind"], none, r["rad"], r["prec"],
                                       str(d.timetuple().tm_yday)]) + "\n")
         return {"WeatherFile": "'MET_%s.'", "WeatherFileFormat": 0, "WeatherNumHeader": nh, "WeatherFolder": folder, "WeatherNoneValue": none}
     if layout == 1:
@@ -471,6 +481,18 @@ def write_project(env, name, P, datefmt="DateENlong", rot="csv", soil="txt", end
          "AutoSowingHarvest": 0, "AutoHarvest": 0, "AutoFertilization": 0, "AutoIrrigation": 0}
     c.update(P.cfg); c.update(cfg or {})
     set_config(pdir, **c)
+    if datefmt.startswith("DateDE"):
+        # the automatic-management table gives its window dates as day+month in the project's order (the shipped table is mmdd)
+        ap = os.path.join(pdir, "automan.txt")
+        rows = open(ap, errors="replace").read().split("\n")
+        for k in range(1, len(rows)):
+            r = rows[k]
+            if len(r) >= 18:
+                for a in (4, 9, 14):
+                    if r[a:a + 4].isdigit() and r[a:a + 4] != "0000":
+                        r = r[:a] + r[a + 2:a + 4] + r[a:a + 2] + r[a + 4:]
+                rows[k] = r
+        open(ap, "w").write("\n".join(rows))
     if drop_dates:
         sharpen_project(pdir, drop_dates=True)
     return pdir
@@ -657,3 +679,42 @@ def all_targets(nrkom, nrentw):
         for j in range(1, nrkom + 1):
             t += [(n, i, j) for n in PART_OFF]
     return t
+
+
+# ------------------------------------------------------------------------------------------------
+# configuration sweep: every equivalence pair also with ONE configuration key away from the project's own configuration
+
+def sweep_items(thorough):
+    """[(name, batch-line keys, needs a reference-ET column in the weather)]"""
+    it = [("PTF=%d" % k, "PTF=%d" % k, False) for k in (1, 2, 3, 4)]
+    it += [("ETpot=%d" % k, "ETpot=%d" % k, k == 5) for k in (1, 2, 4, 5)]
+    it += [("CO2method=%d" % k, "CO2method=%d" % k, False) for k in (1, 3)]
+    it += [("PotMineralisation=1", "PotMineralisation=1", False), ("GroundWaterFrom=0", "GroundWaterFrom=0", False),
+           ("GroundWaterFrom=2", "GroundWaterFrom=2", False), ("Fertilization=50", "Fertilization=50", False),
+           ("LeachingDepth=8", "LeachingDepth=8", False), ("LeachingDepth=12", "LeachingDepth=12", False),
+           ("fileExtension=alt", "fileExtension=alt", False)]
+    it += [("InitSelection=%d" % k, "InitSelection=%d" % k, False) for k in (2, 3, 4)]
+    autos = ["AutoSowingHarvest", "AutoFertilization", "AutoIrrigation", "AutoHarvest"]
+    it += [("%s=1" % a, "%s=1" % a, False) for a in autos]
+    it += [("%s=1+%s=1" % (a, b_), "%s=1 %s=1" % (a, b_), False) for i, a in enumerate(autos) for b_ in autos[i + 1:]]
+    return it
+
+
+def sweep_ready(env, name, P, datefmt="DateENlong"):
+    """what the sweep keys need in project <name>: measurement rows for every InitSelection, a ground-water time series,
+    the files of the fileExtension override"""
+    pdir = os.path.join(env.ex, "project", name)
+    with open(os.path.join(pdir, "gw_%s.csv" % name), "w") as f:
+        f.write("SID,Date,Level\n")
+        for y in range(P.start_year, P.end.year + 1):
+            for m in (1, 4, 7, 10):
+                f.write("%s,%s,%d\n" % (P.sid, fmt_date(datetime.date(y, m, 1), datefmt), 9 + (m + y) % 5))
+    for fn in os.listdir(pdir):
+        if fn.startswith(("crop_", "poly_")) or fn == "automan.txt":
+            shutil.copy(os.path.join(pdir, fn), os.path.join(pdir, fn.rsplit(".", 1)[0] + ".alt"))
+
+
+def sweep_endit(P):
+    """the measurement row under every id an InitSelection may ask for"""
+    if not isinstance(P.endit, list):
+        P.endit = [(i_, P.endit) for i_ in ("ALLE", P.field, P.plot, P.sid)]
